@@ -194,6 +194,36 @@ PROPS = {
              "timeout": {Q: 600, T: 3000}},
         ],
     },
+
+    "C13": {
+        "level": "exploration",
+        "technique": "runtime monitor under virtual time: executable window specification per key judges timed histories; deterministic scheduler (exhaustive DFS) + porcupine linearizability for concurrent requests on an instrumented storage; race-detector stress with a pinned coarse clock",
+        "level_text": "Timed histories (fixed/sliding, memory and instrumented storage, dynamic MaxFunc, skip options with handlers returning statuses and errors, slow handlers, advances around window edges) run on the Go runtime's fake clock and are judged against a sequential window specification written from the documentation: never more handler executions than the limit MaxFunc(c) permits, no rejection while budget remains, 429 + Retry-After = time to reset, other keys unaffected. 2-4 concurrent requests are interleaved at every storage/callback/handler boundary (exhaustively for <=3 workers) and the recorded acquire/refund history is checked for linearizability; a race build hammers the memory backend with 64-512 goroutines under a pinned clock.",
+        "level_note": TRUSTED + "; Go runtime faketime clock; porcupine. The documentation does not pin the rounding of the sliding window's weighted part: over-admission is reported only when even the truncated rate exceeds the limit, rejection-with-budget only when even the real-valued rate fits. X-RateLimit-* header values are counted, not judged (not part of the statement).",
+        "rule": "case = timed history of 1-4 keys / one scheduled scenario / one parallel burst; non-trivial = history with at least one admitted and one rejected request; distinct by (config, outcome string) resp. schedule key",
+        "subs": [
+            {"engine": "limiter", "mode": "vt", "shards": {Q: 16, T: 16}, "min_nontrivial": {Q: 1000, T: 50000},
+             "timeout": {Q: 600, T: 3400}},
+            {"engine": "limiter.race", "mode": "race", "shards": {Q: 2, T: 8}, "reps": {Q: 1, T: 3}, "min_nontrivial": {Q: 2, T: 2},
+             "timeout": {Q: 600, T: 3000}},
+        ],
+    },
+    "C18": {
+        "level": "exploration",
+        "technique": "runtime monitor: echo-server fidelity/precedence/determinism oracle (32 builds per configuration); cookie-jar specification under virtual time; deterministic scheduler parking the completing goroutine at the client.doneWon hook for response ownership; race-detector stress",
+        "level_text": "An echo server over an in-memory listener returns the parsed request: every configured header, query parameter, form field, file, cookie, path parameter, body, user agent and referer must arrive with its value, request level winning where documented, identically over 32 builds of the same configuration. Jar histories (Set/SetByHost/SetKeyValue, response cycles incl. deletions and Max-Age, Get, time advance, Release, release of returned cookies) over several hosts/ports/paths are judged against a set-of-cookies specification on the fake clock. For ownership every request carries an id the server echoes; the scheduler parks the goroutine that won the completion flag at the verif hook while the caller times out and the next request reuses the pooled response; every returned response must carry its own request's id. A race build runs 32 goroutines with mixed timeouts/cancellations on one client.",
+        "level_note": TRUSTED + "; Go runtime faketime clock; the verif hook client.doneWon. Path-parameter values exclude bytes whose escaping is debatable; cookie '/a' vs request '/ab' (string prefix, not path prefix) is not asserted either way.",
+        "rule": "fidelity: case = client+request configuration, non-trivial = >=2 component kinds set at both levels; jar: history with >=2 hosts and one expiry; ownership: schedule in which a timeout fires while the completing goroutine is parked; distinct by case id / schedule key",
+        "subs": [
+            {"engine": "client.fidelity", "mode": "plain", "shards": {Q: 16, T: 16}, "min_nontrivial": {Q: 1000, T: 50000},
+             "timeout": {Q: 600, T: 3000}},
+            {"engine": "client.jar", "mode": "vt", "shards": {Q: 16, T: 16}, "min_nontrivial": {Q: 300, T: 20000}},
+            {"engine": "client.ownership", "mode": "vt", "shards": {Q: 16, T: 16}, "min_nontrivial": {Q: 100, T: 5000},
+             "require_stats": {"hook_hits": 100}, "timeout": {Q: 600, T: 3000}},
+            {"engine": "client.race", "mode": "race", "shards": {Q: 1, T: 4}, "reps": {Q: 1, T: 3}, "min_nontrivial": {Q: 2, T: 2},
+             "timeout": {Q: 600, T: 3000}},
+        ],
+    },
 }
 
 HOOK_COMMITS = ["d290bd8", "d29431c"]
